@@ -18,7 +18,7 @@ RULE = ('a case is (batch, format): batches over the shipped lexicons and unary 
         'tree contains a unary node.')
 ASSUMPTIONS = ['formats ccg2lambda and jigg_xml_ccg2lambda are NOT covered (nltk logic engine absent)',
                'placeholder comes from the real parsing.pyx executed by pyxlite']
-REQUIRED_MONITORS = {'render:ok': 500, 'render:batches-with-placeholder': 100}
+REQUIRED_MONITORS = {'render:ok': 500, 'render:batches-with-placeholder': 100, 'render:nbest-alternatives': 20}
 SKIP = ('ccg2lambda', 'jigg_xml_ccg2lambda')
 
 
